@@ -1818,3 +1818,7 @@ mod tests {
         assert!(server_res.is_err());
     }
 }
+
+#[cfg(pendulum_project_ntpd_rs_verif)]
+#[path = "/verif/hooks/ntp_proto/nts_probe.rs"]
+mod verif_probe;
